@@ -110,7 +110,9 @@ def value_of(kind, tag):
         import numpy as np
         return np.array([7] + [x for x in tag if isinstance(x, int)])  # >= 2 elements: bool() / == are ambiguous
     if kind == 'exc':
-        return ValueError(*tag)  # an exception OBJECT as an ordinary example value (a collected error, say)
+        # an exception OBJECT as an ordinary example value (a collected error, say) - also of a type that a catching
+        # stage further up is told to catch when it is RAISED
+        return (VErrA if tag[1] % 2 == 0 else ValueError)(*tag)
     if kind == 'touchy':
         return Touchy(tag)
     if kind == 'falsy':
